@@ -23,8 +23,10 @@ BINARY = ("ADDER", "SUBSTRACTER", "MULTIPLIER", "ABOVE", "BELOW")
 SCALAR = ("SCALAR_ADDER", "SCALAR_MULTIPLIER", "SCALAR_REV_SUBSTRACTER", "SHIFT")
 AGG = ("SUM", "MIN", "MAX", "AVERAGER")
 EXPR_SHAPES = ("add", "mullit", "litsub", "twotemp", "reflex", "diff", "integ", "xshift",
-               "copy", "three", "absf", "avgdev", "sumfn", "alias", "literal", "xfrom")
-NOEQ_SHAPES = ("add", "twotemp", "diff", "mullit", "absf", "avgdev")
+               "copy", "three", "absf", "avgdev", "sumfn", "alias", "literal", "xfrom", "tree", "tree")
+NOEQ_SHAPES = ("add", "twotemp", "diff", "mullit", "absf", "avgdev", "tree")
+TREE_FUNCS = {"ABS": "RECTIFIER", "D": "DIFFERENTIATOR", "I": "INTEGRATOR"}
+TREE_AGGS = ("AVG", "SUM", "MIN", "MAX")
 T0 = (2020, 3, 1, 0, 0, 0, 0)
 NAN = float("nan")
 
@@ -367,14 +369,44 @@ class TrackWorld(World):
         return {"in1": self._pick_name(r, m, True), "in2": self._pick_name(r, m, True),
                 "out": self._pick_name(r, m)}
 
+    def _gen_tree(self, r, m, k, top=True):
+        """Random expression with exactly k operator applications (each one materialises an
+        evaluator temporary): ["n", name] | ["l", literal] | ["b", op, L, R] | ["f", fn, E] |
+        ["g", aggregate, name]."""
+        if k == 0:
+            return ["n", self._pick_input(r, m)]
+        u = r.random()
+        if u < 0.15 and k == 1:
+            return ["g", r.choice(TREE_AGGS), self._pick_input(r, m)]
+        if u < 0.35:
+            return ["f", r.choice(sorted(TREE_FUNCS)), self._gen_tree(r, m, k - 1, False)]
+        kl = r.randint(0, k - 1)
+        kr = k - 1 - kl
+        L, R = self._gen_tree(r, m, kl, False), self._gen_tree(r, m, kr, False)
+        if r.random() < 0.3:
+            lit = ["l", r.choice([2, 3, 0.5, 10])]
+            if kl == 0 and r.random() < 0.5:
+                L = lit
+            elif kr == 0:
+                R = lit
+        return ["b", r.choice("++-*"), L, R]
+
     def _g_expr(self, r, m):
-        return {"shape": r.choice(EXPR_SHAPES), "out": self._pick_name(r, m), "a": self._pick_input(r, m),
-                "b": self._pick_input(r, m), "c": self._pick_input(r, m),
-                "lit": r.choice([2, 3, 0.5, 10]), "api": r.choice(["operate", "getitem"])}
+        st = {"shape": r.choice(EXPR_SHAPES), "out": self._pick_name(r, m), "a": self._pick_input(r, m),
+              "b": self._pick_input(r, m), "c": self._pick_input(r, m),
+              "lit": r.choice([2, 3, 0.5, 10]), "api": r.choice(["operate", "getitem"])}
+        if st["shape"] == "tree":
+            st["tree"] = self._gen_tree(r, m, r.choice([2, 3, 3, 4, 5, 7, 12, 14]))
+            st["bare"] = r.random() < 0.5
+        return st
 
     def _g_expr_noeq(self, r, m):
-        return {"shape": r.choice(NOEQ_SHAPES), "a": self._pick_input(r, m), "b": self._pick_input(r, m),
-                "lit": r.choice([2, 3, 0.5]), "api": r.choice(["operate", "getitem"])}
+        st = {"shape": r.choice(NOEQ_SHAPES), "a": self._pick_input(r, m), "b": self._pick_input(r, m),
+              "lit": r.choice([2, 3, 0.5]), "api": r.choice(["operate", "getitem"])}
+        if st["shape"] == "tree":
+            st["tree"] = self._gen_tree(r, m, r.choice([2, 3, 4, 6, 12]))
+            st["bare"] = r.random() < 0.5
+        return st
 
     def _g_rejected(self, r, m):
         return {"kind": r.choice(["update_unknown", "remove_unknown", "create_reserved", "read_unknown",
@@ -1093,8 +1125,85 @@ class TrackWorld(World):
     def _lit(self, v):
         return repr(v) if isinstance(v, float) else str(v)
 
+    def _tree_names(self, t):
+        if t[0] in ("n", "g"):
+            return [t[-1]]
+        if t[0] == "l":
+            return []
+        if t[0] == "f":
+            return self._tree_names(t[2])
+        return self._tree_names(t[2]) + self._tree_names(t[3])
+
+    def _tree_text(self, t, bare, parent=None):
+        """Text of the expression.  Every binary operand that is itself a binary node is put in
+        parentheses, except (when `bare`) a product under a sum / difference, which ordinary
+        precedence groups the same way."""
+        k = t[0]
+        if k == "n":
+            return t[1]
+        if k == "l":
+            return self._lit(t[1])
+        if k == "g":
+            return "%s{%s}" % (t[1], t[2])
+        if k == "f":
+            return "%s{%s}" % (t[1], self._tree_text(t[2], bare))
+        txt = "%s%s%s" % (self._tree_text(t[2], bare, t[1]), t[1], self._tree_text(t[3], bare, t[1]))
+        if parent is None or (bare and t[1] == "*" and parent in "+-"):
+            return txt
+        return "(" + txt + ")"
+
+    def _tree_eval(self, t, m):
+        """Value of the expression on the model: a list (one value per observation) or a float
+        (literal).  Counts operator applications in self._napp."""
+        k = t[0]
+        n = len(m["obs"])
+        if k == "n":
+            return list(self._col(m, t[1]))
+        if k == "l":
+            return float(t[1])
+        self._napp += 1
+        if k == "g":
+            col = self._col(m, t[2])
+            clean = [v for v in col if v == v]
+            if not clean or (t[1] in ("MIN", "MAX") and len(clean) != len(col)):
+                raise Skip()
+            if t[1] == "MIN":
+                return [min(col)] * n
+            if t[1] == "MAX":
+                return [max(col)] * n
+            tot = 0
+            for v in clean:
+                tot += v
+            return [tot if t[1] == "SUM" else tot / len(clean)] * n
+        if k == "f":
+            return self._m_unary(TREE_FUNCS[t[1]], self._tree_eval(t[2], m))
+        op = t[1]
+        A, B = self._tree_eval(t[2], m), self._tree_eval(t[3], m)
+        if isinstance(A, float) and isinstance(B, float):
+            raise HarnessError("literal op literal is never generated")
+        if isinstance(A, float):
+            A = [A] * n
+        if isinstance(B, float):
+            B = [B] * n
+        if op == "+":
+            return [u + v for u, v in zip(A, B)]
+        if op == "-":
+            return [u - v for u, v in zip(A, B)]
+        return [u * v for u, v in zip(A, B)]
+
     def _build_expr(self, st, m):
         sh, a, b, lit = st["shape"], st["a"], st.get("b"), st.get("lit")
+        if sh == "tree":
+            names = self._tree_names(st["tree"])
+            if any(not self._input_ok(m, nm) for nm in names):
+                raise Skip()
+            self._napp = 0
+            val = self._tree_eval(st["tree"], m)
+            if any(isinstance(v, float) and v == v and abs(v) > 1e15 for v in val):
+                raise Skip()
+            if self._napp > 10:
+                self.probe("expression_with_more_than_10_temporaries")
+            return self._tree_text(st["tree"], st.get("bare", False)), val, names, self._napp
         A = self._col(m, a)
         B = self._col(m, b) if b is not None and self._input_ok(m, b) else None
         L = self._lit(lit) if lit is not None else None
@@ -1169,6 +1278,8 @@ class TrackWorld(World):
             out = st["out"]
             ins = [st["a"]] + ([st["b"]] if sh in ("add", "twotemp", "three") else []) + \
                 ([st["c"]] if sh == "three" else [])
+            if sh == "tree":
+                ins = []
             if any(not self._input_ok(m, i) for i in ins) or out in RESERVED:
                 raise Skip()
             rhs, exp, _, ntemp = self._build_expr(st, m)
@@ -1199,6 +1310,8 @@ class TrackWorld(World):
         if len(m["obs"]) == 0:
             raise Skip()
         ins = [st["a"]] + ([st["b"]] if st["shape"] in ("add", "twotemp") else [])
+        if st["shape"] == "tree":
+            ins = []
         if any(not self._input_ok(m, i) for i in ins):
             raise Skip()
         text, exp, _, ntemp = self._build_expr(st, m)
